@@ -212,6 +212,20 @@ func syntaxWork(c string) string {
 		}
 		return fmt.Sprintf("LEX %s ; PARSE %s ; PRINT %s ; REPARSE %s ; REPRINT %s ; EXPECT %s ; BPARSE %s", lx, out, pr, re, rp, expect, bp)
 	}
+	if len(fields) == 2 && fields[1] == "BINF" {
+		// a file that parses but does NOT load (a builtin called with an identifier): `--fmt` formats only what parses AND
+		// loads, so the binary must refuse and leave the file as it is (PRINT fmtfail, REPRINT = the file afterwards)
+		if parsed {
+			after1, _ := fmtBinaryKeep(in)
+			pr = "fmtfail"
+			if after1.ok {
+				pr = hx(after1.content)
+			}
+			rp = hx(after1.content)
+			re, _, _ = parseOutcome(after1.content)
+		}
+		return fmt.Sprintf("LEX %s ; PARSE %s ; PRINT %s ; REPARSE %s ; REPRINT %s ; EXPECT %s", lx, out, pr, re, rp, expect)
+	}
 	if len(fields) == 2 && fields[1] == "BIN" {
 		// the same sections, but PRINT / REPRINT are what the REAL BINARY leaves in the spokfile after `spok --fmt`
 		// (once, twice): the whole path cli/app -> read -> parse -> load -> Tree.String -> write is under test
@@ -339,6 +353,51 @@ func showBinary(in string) string {
 	return "fail"
 }
 
+type fmtResult struct {
+	ok      bool   // the binary exited 0
+	content string // the spokfile afterwards
+}
+
+// fmtBinaryKeep: one `spok --fmt`; whether it succeeded and what the file holds afterwards
+func fmtBinaryKeep(in string) (fmtResult, bool) {
+	if binBase == "" {
+		root := os.TempDir()
+		if st, err := os.Stat("/dev/shm"); err == nil && st.IsDir() {
+			root = "/dev/shm"
+		}
+		b, err := os.MkdirTemp(root, fmt.Sprintf("vhsyn-%d-", os.Getppid()))
+		if err != nil {
+			return fmtResult{content: in}, false
+		}
+		binBase = b
+	}
+	home := filepath.Join(binBase, "k")
+	proj := filepath.Join(home, "p")
+	_ = os.RemoveAll(home)
+	if err := os.MkdirAll(proj, 0o755); err != nil {
+		return fmtResult{content: in}, false
+	}
+	defer os.RemoveAll(home)
+	sf := filepath.Join(proj, "spokfile")
+	if err := os.WriteFile(sf, []byte(in), 0o644); err != nil {
+		return fmtResult{content: in}, false
+	}
+	ctx, cancel := context.WithTimeout(context.Background(), 20*time.Second)
+	defer cancel()
+	cmd := exec.CommandContext(ctx, filepath.Join(os.Getenv("VERIF_BUILD"), "spok"), "--fmt")
+	cmd.Dir = proj
+	cmd.Env = []string{"HOME=" + home, "PATH=/usr/bin:/bin", "NO_COLOR=1"}
+	if d := os.Getenv("GOCOVERDIR"); d != "" {
+		cmd.Env = append(cmd.Env, "GOCOVERDIR="+d)
+	}
+	ok := cmd.Run() == nil
+	data, err := os.ReadFile(sf)
+	if err != nil {
+		return fmtResult{ok: ok, content: ""}, true
+	}
+	return fmtResult{ok: ok, content: string(data)}, true
+}
+
 // loadable: the spec is one `file.New` accepts (so that `--fmt`, which formats only what parses AND loads, goes
 // through): distinct task names, no builtin but join on string arguments, commands that are valid templates
 func loadable(spec []sNode) bool {
@@ -394,6 +453,10 @@ func genBinary(w *bufio.Writer, rng *rand.Rand, n int) {
 			src = strings.TrimRight(src, "\r\n")
 		}
 		fmt.Fprintf(w, "%s BIN\n", hx(src))
+		if i%12 == 0 {
+			// the same program with a builtin whose argument is a variable: it parses, it does not load
+			fmt.Fprintf(w, "%s BINF\n", hx("OUTV := \"build\"\nBINV := join(OUTV, \"bin\")\n"+src))
+		}
 	}
 }
 
@@ -418,7 +481,7 @@ func genAlpha(w *bufio.Writer, maxLen int) {
 
 func genRandSymbols(w *bufio.Writer, rng *rand.Rand, n int) {
 	extra := []string{"x := \"v\"\n", "task t(", "\"s\"", ") -> ", "{\n  echo hi\n}\n", "# c\n", "é", "\r\n", "join(", "echo {{.X}}", " }", "}}}", "#\n", "\"\n", " ", " ", "\xe2\x82", "世", "x := y\n", "-> (", "\r\r\n", " \r}", "\r }",
-		"x := 'a", "\"b\"'\n", "'", "\xa0", "\x85", "\xc3", "à", "Å", "\xef\xbb\xbf", "`", "\\", "$", "\x00"}
+		"x := 'a", "\"b\"'\n", "'", "x := \"v\" ", "# r", "x := \"v\"", "\xa0", "\x85", "\xc3", "à", "Å", "\xef\xbb\xbf", "`", "\\", "$", "\x00"}
 	all := append(append([]string{}, alphabet...), extra...)
 	for i := 0; i < n; i++ {
 		k := rng.Intn(14) + 1
@@ -498,9 +561,9 @@ func (g *layoutGen) hws() string {
 }
 
 var identPool = []string{"a", "B", "x_y", "täsk", "_x", "default", "Ünï", "test", "atask", "tas", "ask", "clean", "世界", "a_task_b", "tasky", "SIZE", "ZIP_FILE", "Zz", "aZ", "abcdefghijklmnopqrstuvwxyz", "ABCDEFGHIJKLMNOPQRSTUVWXYZ", "ǅ", "ßẞ", "Ωmega", "дом", "אב", "aªb"}
-var strPool = []string{"", "x", "a b", "\nlead", "\n", "**/*.go", "ü/é.txt", "f.txt", " ", "./bin/main", "{{x}}", "a,b", "(x)", "#no", "->", "task", ":=", "}", "{", "a\tb", "*.x", " ", "é"}
+var strPool = []string{"", "x", "a b", "\nlead", "\n", "a\\tb", "C:\\dir\\new", "\\x41\\u00e9", "printf 'one\\ntwo\\n'", "\\", "**/*.go", "ü/é.txt", "f.txt", " ", "./bin/main", "{{x}}", "a,b", "(x)", "#no", "->", "task", ":=", "}", "{", "a\tb", "*.x", " ", "é"}
 var cmdPool = []string{"date +%Y%m%d", "printf '%s\\n' x", "echo 100%", "echo a", "go test ./...", "echo {{.X}}", "a", "echo \"hi\"", "x -> y", "echo a:=b", "ls (a)", "echo {", "mkdir -p {{.BIN}}/x", "echo $HOME", "echo 'q' | wc -l", "task x", "echo a,b", "echo {{.A}}{{.B}}", "b  c", "echo a\tb", "x \t", "echo {{", "e }} f", "echo é{{.X}}", "echo a ", "b \r c", "c  ", "x}}", "#{{y", "écho x", "xy}}", "}}}", "-v"}
-var commentPool = []string{" voilà", " Å", " хх", " a comment that is rather long: it goes on and on, well past one hundred columns, word after word after word, to the end", " hello", "x", " two words", "", " # inner", " task", "\ttabbed", " trailing  ", "  ", " ü", "task x() {}", " a := \"b\"", " cr\r", "\r", " ---- build ---- #", "##", " fixes issue #", "#", " x #\t"}
+var commentPool = []string{"!/usr/bin/env spok", "! DO NOT EDIT", " voilà", " Å", " хх", " a comment that is rather long: it goes on and on, well past one hundred columns, word after word after word, to the end", " hello", "x", " two words", "", " # inner", " task", "\ttabbed", " trailing  ", "  ", " ü", "task x() {}", " a := \"b\"", " cr\r", "\r", " ---- build ---- #", "##", " fixes issue #", "#", " x #\t"}
 
 func (g *layoutGen) name() string { return identPool[g.rng.Intn(len(identPool))] }
 
@@ -518,6 +581,10 @@ func (g *layoutGen) genArgs(max int) []sArg {
 	n := g.rng.Intn(max + 1)
 	out := []sArg{}
 	for i := 0; i < n; i++ {
+		if i > 0 && g.rng.Intn(8) == 0 {
+			out = append(out, out[i-1]) // the same argument again (and again): lists are lists
+			continue
+		}
 		if g.rng.Intn(2) == 0 {
 			out = append(out, sArg{true, strPool[g.rng.Intn(len(strPool))]})
 		} else {
@@ -849,7 +916,7 @@ func genRuneSweep(w *bufio.Writer, withExpect bool) {
 			}
 			continue
 		}
-		for _, tmpl := range []string{"n%sm := \"v\"\n", "task t(a%s) {}\n", "task t() -> %sx {}\n", "task t() {\n %s go\n}\n", "task%st()%s{%sa%s}", "x := %s", "# c%s\ntask t() {}", "A := \"%s\"%s\n"} {
+		for _, tmpl := range []string{"n%sm := \"v\"\n", "task t(a%s) {}\n", "task t() -> %sx {}\n", "task t() {\n %s go\n}\n", "task%st()%s{%sa%s}", "x := %s", "# c%s\ntask t() {}", "A := \"%s\"%s\n", "x := y-%s", "task go-%s() {}", "a-%s"} {
 			fmt.Fprintln(w, hx(strings.ReplaceAll(tmpl, "%s", c)))
 		}
 	}
@@ -886,7 +953,7 @@ func genLongLines(w *bufio.Writer) {
 func genContexts(w *bufio.Writer) {
 	ctxs := []string{"", "x := ", "x := \"a", "x := join(", "x := join(\"a\",", "task t", "task t(", "task t(a", "task t(\"a\"", "task t() ", "task t() -> ",
 		"task t() -> (", "task t() -> \"o\" ", "task t() {", "task t() {\n", "task t() {\n\t", "task t() {\n echo a\n", "task t() {\n echo a\n\t", "task t() { echo a ",
-		"# c", "# c\n", "x := \"v\"\n", "task t() {}\n"}
+		"# c", "# c\n", "x := \"v\"\n", "x := \"v\" ", "x := \"v\"", "task t() {}\n", "task "}
 	syms := append(append([]string{}, alphabet...), "# foo", "\t# foo", "x", "echo {{.A}}", "\r\n", "->", "- ", "é", "\"s\"")
 	for _, c := range ctxs {
 		for _, a := range syms {
